@@ -32,6 +32,7 @@ struct Ev {
     int tid;
     uint64_t inv, resp;
     long r;
+    uint64_t reacq = 0;  // step of the last condvar re-acquisition inside the call (0: none)
 };
 struct State {
     TV* tv;
@@ -54,8 +55,11 @@ int begin_ev(int op)
 void end_ev(int i, long r)
 {
     gsim::Oracle o;
-    S->evs[(size_t)i].resp = gsim::seq();
-    S->evs[(size_t)i].r = r;
+    Ev& e = S->evs[(size_t)i];
+    e.resp = gsim::seq();
+    e.r = r;
+    uint64_t q = gsim::last_cond_reacquire_seq();
+    if (q >= e.inv) e.reacq = q;  // happened inside this call
 }
 
 std::chrono::milliseconds dur(int c)
@@ -274,6 +278,14 @@ void check_history()
                     if (any_act && trig_true_resp <= e.inv && reset_inv > e.resp)
                         gsim::fail("timeout_after_event", "wait_for returned false although a "
                                    "successful trigger() had returned before it was called");
+                    // it gave up no earlier than its last re-acquisition of the mutex it
+                    // waited with: a trigger() that had returned true by then had happened
+                    if (any_act && e.reacq && trig_true_resp < e.reacq && act_resp <= e.inv &&
+                        reset_inv > e.resp)
+                        gsim::fail("timeout_after_event", "wait_for returned false although a "
+                                   "successful trigger() had returned (step %llu) before the waiter "
+                                   "re-acquired its mutex for the last time (step %llu)",
+                                   (unsigned long long)trig_true_resp, (unsigned long long)e.reacq);
                     break;
                 }
                 if (any_act && act_resp <= e.inv && reset_inv > e.inv && wake_inv > e.resp)
@@ -294,6 +306,10 @@ void check_history()
                 if (!e.r && any_act && act_resp <= e.inv && reset_inv > e.resp)
                     gsim::fail("timeout_after_event", "wait_forActivation returned false although "
                                "activation had completed before it was called");
+                if (!e.r && any_act && e.reacq && act_resp < e.reacq && reset_inv > e.resp)
+                    gsim::fail("timeout_after_event", "wait_forActivation returned false although "
+                               "activation had completed before the waiter re-acquired its mutex "
+                               "for the last time");
                 break;
             case OP_TRIGGER_ONCE:
                 if (e.r && act_inv > e.resp)
